@@ -15,46 +15,31 @@ import (
 
 func init() { Registry["C15"] = c15 }
 
-// placeholderTypes extracts the alternatives of the first capture group of the placeholder regex.
-func (e *Env) placeholderTypes() (alts []string, lit string, where string) {
-	fn := e.P.Func("getShellCommandPlaceHolderRegex")
-	if fn == nil {
-		return nil, "", "-"
+// enumerateFirstGroup returns the finite language of the first capture group of lit (nil if infinite/invalid).
+func enumerateFirstGroup(lit string) []string {
+	re, err := syntax.Parse(lit, syntax.Perl)
+	if err != nil {
+		return nil
 	}
-	for _, b := range fn.Blocks {
-		for _, in := range b.Instrs {
-			c, ok := in.(*ssa.Call)
-			if !ok || c.Call.StaticCallee() == nil || !strings.HasPrefix(c.Call.StaticCallee().String(), "regexp.") {
-				continue
-			}
-			s := e.symbolizer().InFunc(fn, c.Call.Args[0])
-			if s.Op != "lit" {
-				continue
-			}
-			lit, where = s.Lit, e.where(c)
-			re, err := syntax.Parse(lit, syntax.Perl)
-			if err != nil {
-				return nil, lit, where
-			}
-			var find func(r *syntax.Regexp) *syntax.Regexp
-			find = func(r *syntax.Regexp) *syntax.Regexp {
-				if r.Op == syntax.OpCapture && r.Cap == 1 {
-					return r
-				}
-				for _, s := range r.Sub {
-					if x := find(s); x != nil {
-						return x
-					}
-				}
-				return nil
-			}
-			if cp := find(re); cp != nil {
-				alts = enumerate(cp.Sub[0])
+	var find func(r *syntax.Regexp) *syntax.Regexp
+	find = func(r *syntax.Regexp) *syntax.Regexp {
+		if r.Op == syntax.OpCapture && r.Cap == 1 {
+			return r
+		}
+		for _, s := range r.Sub {
+			if x := find(s); x != nil {
+				return x
 			}
 		}
+		return nil
 	}
+	cp := find(re)
+	if cp == nil {
+		return nil
+	}
+	alts := enumerate(cp.Sub[0])
 	sort.Strings(alts)
-	return
+	return alts
 }
 
 // enumerate lists the finite language of a small regex (literals, alternations, concatenations, ?), nil if infinite.
@@ -119,131 +104,79 @@ func c15(e *Env) {
 	r.NotDecided = "the result strings of modifier chains for concrete values (regex semantics of s/a/b/, the arithmetic of %suffix trimming): that is most of the property and is not reachable by this family; only the structure around it is decided."
 	p := e.P
 	fi := e.formatter()
-	alts, lit, where := e.placeholderTypes()
 	ob1 := func(k string) *core.Obligation {
 		return r.Ob("R1", "placeholder-type:"+k, "the placeholder type the regex accepts is handled by an arm or reaches the fatal default, in the command formatter and in SetOut's path function")
 	}
-	if len(alts) == 0 || len(fi.problems) > 0 || fi.fn == nil {
-		ob1("regex").Unknown(where, "placeholder regex alternatives or formatter not resolved: "+lit+" "+strings.Join(fi.problems, ";"))
+	if !fi.ok(ob1("regex")) {
 		return
 	}
-	// SetOut closure
-	var setOutFn *ssa.Function
-	if so := p.DeclaredMethod("scipipe", "Process", "SetOut"); so != nil {
-		for _, an := range so.AnonFuncs {
-			setOutFn = an
-		}
-	}
-	setOutCases := map[string]bool{}
-	setOutDefaultFatal := false
+	r.Ob("R1", "placeholder-type:regex", "").OK(fi.regexPos, "placeholder types "+strings.Join(fi.types, "|")+" from "+fi.regexLit)
+	alts, where := fi.types, fi.regexPos
+	// SetOut's path function: the function SetOut hands to SetOutFunc
+	setOutFn := e.setOutPathFunc()
+	setOutHandled := map[string]string{}
 	if setOutFn != nil {
-		for _, b := range setOutFn.Blocks {
-			if iff, ok := b.Instrs[len(b.Instrs)-1].(*ssa.If); ok {
-				if bo, ok := iff.Cond.(*ssa.BinOp); ok {
-					for _, v := range []ssa.Value{bo.X, bo.Y} {
-						if k, ok := v.(*ssa.Const); ok && k.Value != nil && k.Value.Kind() == constant.String {
-							setOutCases[constant.StringVal(k.Value)] = true
-						}
-					}
-				}
-			}
-		}
 		gs := e.XG(setOutFn)
 		if gs != nil {
-			// the type tag is match[1]: find string comparisons' common operand
-			for _, n := range gs.Nodes {
-				if n.Ctx != gs.Root {
-					continue
-				}
-				if bo, ok := n.Instr.(*ssa.BinOp); ok {
-					if k, ok := bo.Y.(*ssa.Const); ok && k.Value != nil && k.Value.Kind() == constant.String && setOutCases[constant.StringVal(k.Value)] {
-						// assume the tag value (bo.X) unknown-type: run from its definition
-						for _, m := range gs.Nodes {
-							if v, ok := m.Instr.(ssa.Value); ok && v == bo.X && m.Ctx == gs.Root {
-								res := gs.Run(core.Scenario{Start: m, Result: core.StrAV("\x00unknown")})
-								if res.NormalReturn() == nil {
-									setOutDefaultFatal = true
-								}
-							}
-						}
-					}
-				}
+			for _, T := range append(append([]string{}, alts...), "\x00unknown") {
+				setOutHandled[T] = e.setOutArm(gs, T, alts)
 			}
 		}
 	}
-	// formatter default fatal: C09-style scenario on NewTask's XG
-	fmtDefaultFatal := false
-	a := e.anchors()
-	if g, err := p.BuildXG(a.newTask, core.XGOpts{NoInline: func(f *ssa.Function) bool { return f.Name() == "NewFileIP" }}); err == nil {
-		for _, n := range g.Nodes {
-			if n.Ctx.Fn != fi.fn {
-				continue
-			}
-			if v, ok := n.Instr.(ssa.Value); ok && fieldOfLoad(v) == fi.tagField && fi.tagField != nil {
-				if g.Run(core.Scenario{Start: n, Result: core.StrAV("\x00unknown")}).NormalReturn() == nil {
-					fmtDefaultFatal = true
-				}
-			}
-		}
-	}
-	for _, t := range alts {
-		ob := ob1(t)
-		_, inFmt := fi.arms[t]
+	for _, T := range alts {
+		ob := ob1(T)
+		res := fi.arm(T, false, false)
+		fatal := fi.fatalFor(T)
+		may, _, ns := fi.armFacts(res)
+		hasValue := may&(fvTemp|fvPath|fvFifo) != 0 || len(fi.valueLookups(res)) > 0
 		switch {
-		case !inFmt && !fmtDefaultFatal:
-			ob.Fail(core.FuncName(fi.fn), "placeholder type \""+t+"\" is accepted by the regex but has no arm in the command formatter and the default is not fatal: the placeholder is replaced by an empty string")
-		case setOutFn != nil && !setOutCases[t] && !setOutDefaultFatal:
-			ob.Fail(core.FuncName(setOutFn), "placeholder type \""+t+"\" has no case in SetOut's path function and its default is not fatal")
+		case !fatal && (ns == 0 || !hasValue):
+			ob.Fail(where, "placeholder type \""+T+"\" is accepted by the regex but no arm supplies a value for it and the default is not fatal: the placeholder is replaced by an empty string")
+		case setOutFn != nil && setOutHandled[T] == "unhandled":
+			ob.Fail(core.FuncName(setOutFn), "placeholder type \""+T+"\" has no case in SetOut's path function and its default is not fatal")
 		default:
 			how := "arm"
-			if !inFmt {
+			if fatal {
 				how = "fatal default"
 			}
-			ob.OK(where, "formatter: "+how+"; SetOut: "+map[bool]string{true: "case", false: "fatal default"}[setOutCases[t]])
+			ob.OK(where, "formatter: "+how+"; SetOut: "+setOutHandled[T])
 		}
 	}
 	// ---- R2 modifiers
 	e.c15Modifiers()
 	// ---- R3 replace count
-	ob3 := func(k string) *core.Obligation {
-		return r.Ob("R3", k+":Replace n<0", "every occurrence of the placeholder is replaced (strings.Replace count negative, or ReplaceAll)")
-	}
-	chkRepl := func(fn *ssa.Function, key string, isSubst func(c *ssa.Call) bool) {
-		o := ob3(key)
-		if fn == nil {
-			o.Unknown("-", "function not found")
+	chk := func(key string, nodes []*core.Node, g *core.XG, fnName string) {
+		o := r.Ob("R3", key+":Replace n<0", "every occurrence of the placeholder is replaced (strings.Replace count negative, or ReplaceAll)")
+		if len(nodes) == 0 {
+			o.Fail(fnName, "no substituting strings.Replace found")
 			return
 		}
-		n := 0
-		for _, b := range fn.Blocks {
-			for _, in := range b.Instrs {
-				c, ok := in.(*ssa.Call)
-				if !ok || c.Call.StaticCallee() == nil || !isSubst(c) {
-					continue
-				}
-				n++
-				switch c.Call.StaticCallee().String() {
-				case "strings.ReplaceAll":
-					o.OK(e.where(c), "ReplaceAll")
-				case "strings.Replace":
-					k, ok := c.Call.Args[3].(*ssa.Const)
-					o.Check(ok && k.Value != nil && k.Int64() < 0, e.where(c), "count "+c.Call.Args[3].String(), "the placeholder substitution replaces only "+c.Call.Args[3].String()+" occurrence(s): a pattern using the same placeholder twice keeps an unreplaced {..} in the command")
-				}
+		for _, n := range nodes {
+			if n.IsCallTo("strings.ReplaceAll") {
+				o.OK(g.Where(n), "ReplaceAll")
+				continue
 			}
-		}
-		if n == 0 {
-			o.Fail(core.FuncName(fn), "no substituting strings.Replace found")
+			k, ok := n.Call.Args[3].(*ssa.Const)
+			o.Check(ok && k.Value != nil && k.Int64() < 0, g.Where(n), "count "+n.Call.Args[3].String(), "the placeholder substitution replaces only "+n.Call.Args[3].String()+" occurrence(s): a pattern using the same placeholder twice keeps an unreplaced {..}")
 		}
 	}
-	chkRepl(fi.fn, "formatter", func(c *ssa.Call) bool { return c == fi.replace })
-	chkRepl(setOutFn, "SetOut", func(c *ssa.Call) bool {
-		nm := c.Call.StaticCallee().String()
-		if nm != "strings.Replace" && nm != "strings.ReplaceAll" {
-			return false
+	chk("formatter", fi.subst, fi.g, "NewTask")
+	if setOutFn != nil {
+		if gs := e.XG(setOutFn); gs != nil {
+			var ns []*core.Node
+			for _, n := range gs.Nodes {
+				if n.IsCallTo("strings.Replace", "strings.ReplaceAll") && len(n.Call.Args) >= 3 && !(fi.modsFn != nil && inCtxOfFn(n, fi.modsFn)) {
+					if _, lit := n.Call.Args[1].(*ssa.Const); !lit {
+						from := e.symbolizer().InCtx(n.Ctx, n.Call.Args[1]).String()
+						if strings.Contains(from, "FindAllStringSubmatch") {
+							ns = append(ns, n)
+						}
+					}
+				}
+			}
+			chk("SetOut", ns, gs, core.FuncName(setOutFn))
 		}
-		_, isPhi := c.Call.Args[2].(*ssa.Phi)
-		return isPhi
-	})
+	}
 	// ---- R4 missing values
 	e.c15Missing()
 	// ---- R5 order determinism
@@ -276,21 +209,126 @@ func c15(e *Env) {
 	} else {
 		ob5.Unknown("-", "default path function not found")
 	}
-	ob5b := r.Ob("R5", "formatter:order", "the command is assembled in the order of the placeholder matches (no map range in the formatter feeds the command)")
+	ob5b := r.Ob("R5", "formatter:order", "the command is assembled in the order of the placeholder matches (no map range feeds the command text)")
 	nRange := 0
-	for _, b := range fi.fn.Blocks {
-		for _, in := range b.Instrs {
-			if rg, ok := in.(*ssa.Range); ok {
-				if _, isMap := rg.X.Type().Underlying().(*types.Map); isMap {
-					nRange++
-					ob5b.Fail(e.where(rg), "the formatter ranges over a map ("+e.symbolizer().InFunc(fi.fn, rg.X).String()+")")
+	seenFn := map[*ssa.Function]bool{}
+	for _, c := range fi.g.Ctxs {
+		if c == fi.g.Root || seenFn[c.Fn] {
+			continue
+		}
+		// only functions on the way to a substitution
+		onPath := false
+		for _, sn := range fi.subst {
+			for x := sn.Ctx; x != nil; x = x.Parent {
+				if x.Fn == c.Fn {
+					onPath = true
+				}
+			}
+		}
+		if !onPath {
+			continue
+		}
+		seenFn[c.Fn] = true
+		for _, b := range c.Fn.Blocks {
+			for _, in := range b.Instrs {
+				if rg, ok := in.(*ssa.Range); ok {
+					if _, isMap := rg.X.Type().Underlying().(*types.Map); isMap {
+						nRange++
+						ob5b.Fail(e.where(rg), "the formatter ranges over a map ("+e.symbolizer().InFunc(c.Fn, rg.X).String()+")")
+					}
 				}
 			}
 		}
 	}
 	if nRange == 0 {
-		ob5b.OK(core.FuncName(fi.fn), "no map range in the formatter")
+		ob5b.OK(fi.regexPos, "no map range in the functions that build the command")
 	}
+}
+
+// setOutPathFunc: the function value SetOut passes to SetOutFunc.
+func (e *Env) setOutPathFunc() *ssa.Function {
+	so := e.P.DeclaredMethod("scipipe", "Process", "SetOut")
+	if so == nil {
+		return nil
+	}
+	for _, b := range so.Blocks {
+		for _, in := range b.Instrs {
+			if c, ok := in.(*ssa.Call); ok && c.Call.StaticCallee() != nil && c.Call.StaticCallee().Name() == "SetOutFunc" {
+				for _, a := range c.Call.Args {
+					if f := funcOf(a); f != nil {
+						return f
+					}
+				}
+			}
+		}
+	}
+	for _, an := range so.AnonFuncs {
+		return an
+	}
+	return nil
+}
+
+// setOutArm explores SetOut's path function for placeholder type T: the value compared with the type
+// constants is assumed to be T at its definition.  Returns "case", "fatal default" or "unhandled".
+func (e *Env) setOutArm(gs *core.XG, T string, alts []string) string {
+	sy := e.symbolizer()
+	// find the compared tag values (resolved through parameters to their defining node)
+	type def struct {
+		n *core.Node
+	}
+	var defs []*core.Node
+	seen := map[*core.Node]bool{}
+	for _, n := range gs.Nodes {
+		bo, ok := n.Instr.(*ssa.BinOp)
+		if !ok {
+			continue
+		}
+		for _, pair := range [][2]ssa.Value{{bo.X, bo.Y}, {bo.Y, bo.X}} {
+			k, ok := pair[1].(*ssa.Const)
+			if !ok || k.Value == nil || k.Value.Kind() != constant.String || !containsStr(alts, constant.StringVal(k.Value)) {
+				continue
+			}
+			s := sy.InCtx(n.Ctx, pair[0])
+			if s.Val == nil || s.Fn == nil {
+				continue
+			}
+			for _, m := range gs.Nodes {
+				if v, ok := m.Instr.(ssa.Value); ok && v == s.Val && m.Ctx.Fn == s.Fn && !seen[m] {
+					seen[m] = true
+					defs = append(defs, m)
+				}
+			}
+		}
+	}
+	if len(defs) == 0 {
+		return "unhandled"
+	}
+	handled := "unhandled"
+	for _, d := range defs {
+		res := gs.Run(core.Scenario{Start: d, Result: core.StrAV(T)})
+		if res.NormalReturn() == nil {
+			if handled == "unhandled" {
+				handled = "fatal default"
+			}
+			continue
+		}
+		// a value source must be reachable: an accessor of the task or a path function
+		src := res.Reaches(func(m *core.Node) bool {
+			if m.Callee == nil || m.Kind == core.KAfter {
+				return false
+			}
+			switch core.FuncName(m.Callee) {
+			case "(*Task).InPath", "(*Task).Param", "(*Task).Tag", "(*Task).InIP", "(*Task).OutIP", "(*Task).OutPath":
+				return true
+			}
+			return false
+		})
+		dyn := res.Reaches(func(m *core.Node) bool { return m.IsDynCall() })
+		if src != nil || dyn != nil {
+			handled = "case"
+		}
+	}
+	return handled
 }
 
 func (e *Env) c15Modifiers() {
@@ -373,81 +411,6 @@ func (e *Env) c15Modifiers() {
 func (e *Env) c15Missing() {
 	e.formatterMissingRule("R4")
 	e.accessorRule("R4")
-}
-
-// formatterMissingRule: per placeholder arm, an absent or present-but-empty value is fatal.
-func (e *Env) formatterMissingRule(rule string) {
-	r := e.R
-	a := e.anchors()
-	fi := e.formatter()
-	p := e.P
-	nfip := p.Func("NewFileIP")
-	g, err := p.BuildXG(a.newTask, core.XGOpts{NoInline: func(f *ssa.Function) bool { return f == nfip }})
-	if err != nil {
-		r.Ob(rule, "formatter", "missing values fatal").Unknown("-", err.Error())
-		return
-	}
-	// per arm: every lookup of the value map that is the FIRST in its arm is tried with: absent, and present-but-empty
-	for _, label := range []string{"o", "os", "i", "p", "t"} {
-		ob := r.Ob(rule, "formatter["+label+"]:missing-or-empty⇒exit", "an absent or empty value for this placeholder type makes exit inevitable before the command is formed")
-		if _, ok := fi.arms[label]; !ok {
-			continue
-		}
-		okArm := false
-		whyNot := "no guarded lookup found in the arm"
-		for _, n := range g.Nodes {
-			if n.Ctx.Fn != fi.fn {
-				continue
-			}
-			lk, ok := n.Instr.(*ssa.Lookup)
-			if !ok {
-				continue
-			}
-			if _, isParam := lk.X.(*ssa.Parameter); !isParam {
-				continue
-			}
-			if l, _ := armLabel(lk.Block()); l != label {
-				continue
-			}
-			mt := lk.X.Type().Underlying().(*types.Map)
-			var cases []core.AV
-			switch mt.Elem().Underlying().(type) {
-			case *types.Pointer:
-				if lk.CommaOk {
-					cases = []core.AV{core.TupleAV(core.NilAV(), core.BoolAV(false)), core.TupleAV(core.NilAV(), core.BoolAV(true))}
-				} else {
-					cases = []core.AV{core.NilAV()}
-				}
-			case *types.Basic:
-				if lk.CommaOk {
-					cases = []core.AV{core.TupleAV(core.StrAV(""), core.BoolAV(false)), core.TupleAV(core.StrAV(""), core.BoolAV(true))}
-				} else {
-					cases = []core.AV{core.StrAV("")}
-				}
-			default:
-				continue
-			}
-			all := true
-			for i, cs := range cases {
-				if g.Run(core.Scenario{Start: n, Result: cs}).NormalReturn() != nil {
-					all = false
-					if lk.CommaOk && i == 1 {
-						whyNot = "a value that is present but empty (\"\") passes the check at " + g.Where(n) + ": the command is formed with an empty placeholder"
-					} else {
-						whyNot = "an absent value passes the check at " + g.Where(n)
-					}
-				}
-			}
-			if all {
-				okArm = true
-				ob.OK(g.Where(n), "absent/empty "+lk.X.Name()+"[..] ⇒ exit")
-				break
-			}
-		}
-		if !okArm {
-			ob.Fail(core.FuncName(fi.fn), whyNot)
-		}
-	}
 }
 
 // accessorRule: the Task accessors are fatal when the named value is absent.
